@@ -1,6 +1,9 @@
 package main
 
-func cmdCheck(args []string) int    { return 2 }
-func cmdReplay(args []string) int   { return 2 }
 func cmdSelftest(args []string) int { return 2 }
 func cmdAll(args []string) int      { return 2 }
+
+func searchWitness(e *Engine, res *checkResult, o *Obligation, seed int) map[string]interface{} {
+	return nil
+}
+func rerunWitness(rp map[string]interface{}) (string, int) { return "not implemented", 2 }
